@@ -565,7 +565,8 @@ func c23Run(r *vlib.Run, c *c23Case, count bool) string {
 	return trace.String()
 }
 
-func c23Events(ids, maxLen int) []c23Event {
+// sequences longer than fullPatLen get the all-zero attempt pattern only
+func c23Events(ids, maxLen, fullPatLen int) []c23Event {
 	var exts [][]c23Ticket
 	for n := 0; n <= maxLen; n++ {
 		vlib.Sequences(ids, n, func(s []int) {
@@ -574,6 +575,9 @@ func c23Events(ids, maxLen int) []c23Event {
 				pats = 1
 			} else if n == 1 {
 				pats = 3
+			}
+			if n > fullPatLen {
+				pats = 1
 			}
 			for p := 0; p < pats; p++ {
 				ext := make([]c23Ticket, n)
@@ -635,7 +639,7 @@ func TestVerif_C23(t *testing.T) {
 	}
 
 	ids := vlib.Pick(r, 5, 6)
-	evs := c23Events(ids, vlib.Pick(r, 3, 4))
+	evs := c23Events(ids, vlib.Pick(r, 3, 4), 3)
 
 	// frontier by the reference model (identical in every shard)
 	type node struct {
